@@ -712,6 +712,68 @@ def has_surrogate(t):
 # ------------------------------------------------------------------------------ AST guards = generated obligations
 
 
+GEN_C04 = r"""From DV Require Import Base.Prelude Model.NameM Model.SchemaM Model.UntrustedM Proofs.SchemaTable Proofs.ParserSafe Proofs.UntrustedSchema.
+From Scratch Require Import GenRdtypes.
+Open Scope Z_scope.
+Theorem gen_table_ok : forallb entry_ok table = true.
+Proof. vm_compute. reflexivity. Qed.
+(* dns.rdata.from_wire for EVERY (class, type): get_rdata_class resolves to an entry of the table
+   generated from dns/rdtypes/** of this run, or to GenericRdata; for every regular (schema) codec
+   the result on arbitrary octets is a record that consumed exactly rdlen and renders to wire
+   again, or a FormError-family error - never a Python-level exception *)
+Theorem no_internal_rdata_wire_all_types : forall c t w r ck wire cur rdlen,
+  bytes_ok wire -> lookup table c t = CSchema w r ck ->
+  match decode_rdata None (map fst r) ck wire cur rdlen with
+  | Ok vs =>
+      (cur + rdlen <= length wire)%nat /\
+      exists w', encode_rdata None (map fst w) ck vs = Ok w' /\
+                 decode_rdata None (map fst r) ck w' 0 (length w') = Ok vs
+  | Lib x => is_form x = true
+  | Internal _ => False
+  end.
+Proof. intros. eapply table_from_wire_family; eauto. exact gen_table_ok. Qed.
+Print Assumptions no_internal_rdata_wire_all_types.
+(* how many (class, type) modules are covered by it, and which are hand-modelled *)
+Eval vm_compute in (length (filter (fun e => match e_codec e with CSchema _ _ _ => true | _ => false end) table),
+                    map (fun e => (e_class e, e_type e)) (filter (fun e => match e_codec e with CSchema _ _ _ => false | _ => true end) table)).
+"""
+
+
+def generated_schema_obligation(ctx):
+    import subprocess
+
+    sys.path.insert(0, os.path.join(VERIF, "tools"))
+    import lib as _lib
+    import translate_rdtypes as TR
+
+    d = os.path.join(ctx.scratch, "gen")
+    os.makedirs(d, exist_ok=True)
+    out = []
+    try:
+        tr = TR.translate(P.REPO)
+    except Exception as e:  # fail closed
+        return [{"name": "rdtypes-table", "ok": False, "detail": f"translator crashed: {type(e).__name__}: {e}"}]
+    out.append({"name": "rdtypes-table-translated", "ok": bool(tr["ok"]),
+                "detail": ("%d modules translated" % len(tr["types"])) if tr["ok"] else "translator failed closed: " + "; ".join(tr["errors"])[:300]})
+    with open(os.path.join(d, "GenRdtypes.v"), "w") as f:
+        f.write(TR.emit_coq(tr))
+    with open(os.path.join(d, "GenC04.v"), "w") as f:
+        f.write(GEN_C04)
+    _lib.coq_make(["Proofs/UntrustedSchema.vo"])
+    rc, o1, _ = _lib.run_cmd(["coqc", "-Q", _lib.COQ, "DV", "-Q", d, "Scratch", os.path.join(d, "GenRdtypes.v")], timeout=600)
+    rc2, o2 = 1, ""
+    if rc == 0:
+        rc2, o2, _ = _lib.run_cmd(["coqc", "-Q", _lib.COQ, "DV", "-Q", d, "Scratch", os.path.join(d, "GenC04.v")], timeout=900)
+    ok = rc == 0 and rc2 == 0 and "Closed under the global context" in o2
+    info = ""
+    m = __import__("re").search(r"=\s*\((\d+)%nat,\s*(\[.*?\])\)", o2.replace("\n", " "))
+    if m:
+        info = f"{m.group(1)} schema codecs; hand-modelled (outside this theorem): {m.group(2)[:200]}"
+    out.append({"name": "no_internal_rdata_wire_all_types", "ok": ok,
+                "detail": info if ok else ("generated theorem does not check: " + (o1 + o2)[-600:])})
+    return out
+
+
 def generated_obligations(ctx):
     sys.path.insert(0, os.path.join(VERIF, "tools"))
     import importlib
@@ -723,6 +785,10 @@ def generated_obligations(ctx):
     res.append({"name": "rdtypes-api-dynamic", "ok": not viol,
                 "detail": (f"{n} per-type parses left the Parser inside the message, end restored, furthest monotone" if not viol
                            else "a per-type parser breaks the Parser discipline: " + repr(viol[:2]))})
+    # the rdtypes table of THIS tree (tools/translate_rdtypes.py, C02's fail-closed translator) and
+    # the all-types theorem instantiated on it
+    gen = generated_schema_obligation(ctx)
+    res += gen
     bad = [r for r in res if not r["ok"]]
     ctx.notes["ast_guards"] = [{"guard": r["name"], "ok": r["ok"], "detail": r["detail"][:200]} for r in res]
     return {
